@@ -21,7 +21,16 @@ Only these lexical normalisations are applied to copied text (each counted, see 
   N3 `-> T` becomes `-> (r: T)` and the contract is spliced before the body's `{`
   N4 `#[cfg(feature = "statistics")]` statements/blocks inside bodies are dropped (feature off) and
      `#[allow(..)]` statement attributes are dropped
-Nothing else inside a function body is touched.
+  N5 ref patterns in `Some(&PAT)` position (unsupported by Verus) are desugared by the equivalent two-step binding:
+        let Some(&PAT) = E else { .. };      ->  let Some(__vp_k) = E else { .. }; let PAT = *__vp_k;
+        if let Some(&PAT) = E {              ->  if let Some(__vp_k) = E { let PAT = *__vp_k;
+        Some(&PAT) => ARM                    ->  Some(__vp_k) => { let PAT = *__vp_k; ARM }
+     (same meaning in Rust whenever both compile: the bindings inside PAT copy out of the reference)
+  N6 (only with option `iter` on an assumed accessor) the return type `impl Iterator<Item = X> [+ '_]` is replaced by the
+     prelude's `CopyIter<'_, X>` (Verus has no `impl Trait` returns); the accessor's contract is assumed
+No expression is rewritten otherwise. Ghost text (loop invariants, proof blocks) named in the unit template is spliced
+into bodies at loop ordinals / after exact statement texts, always on the same output line so that line numbers of the
+body still correspond to the source (annotation in place; ghost code only, erased at compile time).
 
 Anchor loss (an item is not found, or found ambiguously) raises AnchorLost -> exit 2 upstream.
 """
@@ -373,7 +382,8 @@ class SourceFile:
 class Normaliser:
     def __init__(self):
         self.counts = {'N1_visibility': 0, 'N2_attrs_docs_dropped': 0, 'N3_ret_named_contract_spliced': 0,
-                       'N4_cfg_statistics_or_allow_dropped': 0}
+                       'N4_cfg_statistics_or_allow_dropped': 0, 'N5_ref_pattern_desugared': 0,
+                       'N6_impl_iterator_return_type': 0, 'G_ghost_splices': 0}
 
     def vis(self, s):
         def rep(m):
@@ -438,6 +448,161 @@ class Normaliser:
             return ''
         s2 = re.sub(r'^[ \t]*#\[allow\([^\]]*\)\]\s*\n', rep, s2, flags=re.M)
         return s2
+
+    # ---- N5 -----------------------------------------------------------------------------------------
+    def refpat(self, s):
+        """desugar `Some(&PAT)` patterns (see module docstring). Raises AnchorLost on an unrecognised context."""
+        k = 0
+        while True:
+            sc = Scan(s)
+            m = None
+            for mm in re.finditer(r'\bSome\(\s*&', s):
+                if sc.is_code(mm.start()):
+                    m = mm
+                    break
+            if not m:
+                return s
+            po = s.index('(', m.start())
+            pc = sc.match[po]
+            pat = s[m.end():pc].strip()
+            if pat.startswith('mut '):
+                raise AnchorLost('N5: `&mut` pattern not handled')
+            var = f'__vp_{k}'
+            k += 1
+            # context
+            before = s[:m.start()]
+            bm = re.search(r'(\bif\s+let|\blet)\s*$', before)
+            after = s[pc + 1:]
+            if bm and bm.group(1) == 'let':
+                # let-else: find ` else {` block and its terminating `;`
+                em = None
+                i = pc + 1
+                # the `else` keyword at bracket depth 0 relative to here
+                while i < len(s):
+                    if sc.code[i]:
+                        ch = s[i]
+                        if ch in '([{' and i in sc.match:
+                            i = sc.match[i] + 1
+                            continue
+                        if ch == ';':
+                            break
+                        if s.startswith('else', i) and not (s[i - 1].isalnum() or s[i - 1] == '_') and sc.code[i]:
+                            em = i
+                            break
+                    i += 1
+                if em is None:
+                    raise AnchorLost('N5: `let Some(&..) = ..` without else block')
+                ob = sc.next_code_char('{', em)
+                cb = sc.match[ob]
+                semi = sc.next_code_char(';', cb)
+                if semi < 0 or s[cb + 1:semi].strip():
+                    raise AnchorLost('N5: let-else not terminated by `;`')
+                s = s[:m.start()] + f'Some({var})' + s[pc + 1:semi + 1] + f' let {pat} = *{var};' + s[semi + 1:]
+            elif bm:
+                # if let Some(&PAT) = E {
+                i = pc + 1
+                ob = None
+                while i < len(s):
+                    if sc.code[i]:
+                        ch = s[i]
+                        if ch in '([' and i in sc.match:
+                            i = sc.match[i] + 1
+                            continue
+                        if ch == '{':
+                            ob = i
+                            break
+                    i += 1
+                if ob is None:
+                    raise AnchorLost('N5: if-let without block')
+                s = s[:m.start()] + f'Some({var})' + s[pc + 1:ob + 1] + f' let {pat} = *{var};' + s[ob + 1:]
+            else:
+                am = re.match(r'\s*=>\s*', after)
+                if not am:
+                    raise AnchorLost('N5: `Some(&..)` in an unrecognised position')
+                st = pc + 1 + am.end()
+                if s[st] == '{':
+                    s = s[:m.start()] + f'Some({var})' + s[pc + 1:st + 1] + f' let {pat} = *{var};' + s[st + 1:]
+                else:
+                    # expression arm: ends at the `,` at bracket depth 0 (or at the closing brace of the match)
+                    i = st
+                    end = None
+                    while i < len(s):
+                        if sc.code[i]:
+                            ch = s[i]
+                            if ch in '([{' and i in sc.match:
+                                i = sc.match[i] + 1
+                                continue
+                            if ch == ',' or ch == '}':
+                                end = i
+                                break
+                        i += 1
+                    if end is None:
+                        raise AnchorLost('N5: match arm without end')
+                    s = (s[:m.start()] + f'Some({var})' + s[pc + 1:st] + '{ ' + f'let {pat} = *{var}; ' + s[st:end].rstrip()
+                         + ' }' + s[end:])
+            self.counts['N5_ref_pattern_desugared'] += 1
+
+    # ---- ghost splices ---------------------------------------------------------------------------------
+    def splice(self, body, splices):
+        """splices: list of (kind, arg, text). kinds: loop <k> <name> (label the k-th `for` loop's iterator and add the
+        invariant text), after <stmt text>, before <stmt text>, loop-start <k>, loop-end <k>. Text goes on one line."""
+        def flat(txt):
+            out = []
+            for l in txt.split('\n'):
+                l = re.sub(r'//.*$', '', l).strip()
+                if l:
+                    out.append(l)
+            return ' '.join(out)
+
+        for kind, arg, txt in splices:
+            sc = Scan(body)
+            t = flat(txt)
+            if kind in ('loop', 'loop-start', 'loop-end'):
+                parts = arg.split()
+                k = int(parts[0])
+                fors = [m for m in sc.finditer_code(r'\bfor\b') if re.match(r'for\s+[^;{]*?\bin\b', body[m.start():])]
+                if k >= len(fors):
+                    raise AnchorLost(f'ghost splice: loop {k} not found ({len(fors)} for-loops)')
+                fm = fors[k]
+                im = re.compile(r'\bin\b').search(body, fm.end())
+                i = im.end()
+                ob = None
+                while i < len(body):
+                    if sc.code[i]:
+                        ch = body[i]
+                        if ch in '([' and i in sc.match:
+                            i = sc.match[i] + 1
+                            continue
+                        if ch == '{':
+                            ob = i
+                            break
+                    i += 1
+                if ob is None:
+                    raise AnchorLost(f'ghost splice: loop {k} has no body')
+                cb = sc.match[ob]
+                if kind == 'loop':
+                    name = parts[1] if len(parts) > 1 else 'it'
+                    expr = body[im.end():ob]
+                    body = body[:im.end()] + f' {name}:' + expr.rstrip() + ' ' + t + ' ' + body[ob:]
+                elif kind == 'loop-start':
+                    body = body[:ob + 1] + ' ' + t + body[ob + 1:]
+                else:
+                    body = body[:cb] + t + ' ' + body[cb:]
+            elif kind in ('after', 'before'):
+                key = arg.strip()
+                idxs = [m.start() for m in re.finditer(re.escape(key), body)]
+                if len(idxs) != 1:
+                    raise AnchorLost(f'ghost splice: anchor text {key!r} occurs {len(idxs)} times')
+                if kind == 'after':
+                    j = idxs[0] + len(key)
+                    body = body[:j] + ' ' + t + body[j:]
+                else:
+                    j = idxs[0]
+                    body = body[:j] + t + ' ' + body[j:]
+            else:
+                raise AnchorLost(f'ghost splice: unknown kind {kind}')
+            self.counts['G_ghost_splices'] += 1
+        return body
 
 
 def expand(template_path, repo):
@@ -511,8 +676,13 @@ def expand(template_path, repo):
                 raise AnchorLost(f'fn-from: {qn2} has no contract in unit {other}')
             cl = []
             oj = found + 1
+            in_splice = False
             while olines[oj].strip() != '//@end':
-                cl.append(olines[oj])
+                osx = olines[oj].strip()
+                if osx.startswith('//@loop ') or osx.startswith('//@ghost '):
+                    in_splice = True   # ghost splices belong to the body, which is not visible in the importing unit
+                if not in_splice:
+                    cl.append(olines[oj])
                 oj += 1
             indent0 = re.match(r'\s*', ln).group(0)
             lines[i:i + 1] = [indent0 + f'//@fn {rel2} {qn2} external from={other}'] + cl + [indent0 + '//@end']
@@ -542,6 +712,25 @@ def expand(template_path, repo):
             if i >= len(lines):
                 raise AnchorLost(f'{template_path}: //@fn {qn} without //@end')
             i += 1
+            # split off in-body ghost splices (//@loop, //@ghost) from the contract text
+            splices = []
+            pure = []
+            curs = None
+            for cl in contract:
+                cs = cl.strip()
+                if cs.startswith('//@loop ') or cs.startswith('//@ghost '):
+                    if cs.startswith('//@loop '):
+                        curs = ['loop', cs[len('//@loop '):].strip(), '']
+                    else:
+                        rest = cs[len('//@ghost '):].strip()
+                        kind, _, arg = rest.partition(' ')
+                        curs = [kind, arg.strip().strip('`'), '']
+                    splices.append(curs)
+                elif curs is not None:
+                    curs[2] += cl + '\n'
+                else:
+                    pure.append(cl)
+            contract = pure
             sf = src(rel)
             sp = sf.find_fn(qual, name, nth)
             if not sp['has_body']:
@@ -549,6 +738,17 @@ def expand(template_path, repo):
             head = norm.vis(sf.text[sp['sig_start']:sp['params_close'] + 1])
             body = sf.text[sp['body_open']:sp['body_close'] + 1]
             body = norm.body(body)
+            if not external:
+                body = norm.refpat(body)
+                if splices:
+                    body = norm.splice(body, [tuple(x) for x in splices])
+            if 'iter' in opts and sp['ret'] is not None:
+                rm = re.match(r"^impl\s+Iterator<Item\s*=\s*(.*)>\s*(\+\s*'_)?$", sp['ret'].strip(), re.S)
+                if not rm:
+                    raise AnchorLost(f'{rel}: fn {qn}: option iter but return type is {sp["ret"]!r}')
+                sp = dict(sp)
+                sp['ret'] = f"CopyIter<'_, {rm.group(1).strip()}>"
+                norm.counts['N6_impl_iterator_return_type'] += 1
             if nobody:
                 # assumed function whose body cannot even be type-checked against this unit's opaque types
                 body = '{ unimplemented!() }'
